@@ -100,6 +100,15 @@ impl<'w, 's> Readers<'w, 's>
         s.rem[0] = self.ra.get().ok().map(|e| e.to_bits());
         s.rem[1] = self.rb.get().ok().map(|e| e.to_bits());
         s.d = self.d.get().ok().map(|e| e.to_bits());
+        // every accessor of a reader must tell the same story (the panicking ones are only called when there is something to read)
+        let mut bad = false;
+        macro_rules! bcast { ($r:expr, $v:expr) => { bad |= $r.is_empty() != $v.is_none(); if !$r.is_empty() { bad |= Some($r.read().0) != $v; } }; }
+        bcast!(self.bx, s.b[0]); bcast!(self.by, s.b[1]);
+        macro_rules! eev { ($r:expr, $v:expr) => { bad |= $r.is_empty() != $v.is_none(); bad |= $r.get_entity().ok().map(|e| e.to_bits()) != $v.map(|x| x.0); if !$r.is_empty() { let (e, x) = $r.read(); bad |= Some((e.to_bits(), x.0)) != $v; bad |= Some($r.entity().to_bits()) != $v.map(|x| x.0); } }; }
+        eev!(self.ex, s.e[0]); eev!(self.ey, s.e[1]);
+        macro_rules! ent { ($r:expr, $v:expr) => { bad |= $r.is_empty() != $v.is_none(); if !$r.is_empty() { bad |= Some($r.entity().to_bits()) != $v; } }; }
+        ent!(self.ia, s.ins[0]); ent!(self.ib, s.ins[1]); ent!(self.ma, s.mu[0]); ent!(self.mb, s.mu[1]); ent!(self.ra, s.rem[0]); ent!(self.rb, s.rem[1]); ent!(self.d, s.d);
+        s.inconsistent = bad;
         (s, held)
     }
 }
